@@ -46,7 +46,7 @@ Print Assumptions largest_base_total.
 (* non-vacuity *)
 Example ex_power : calculate_largest_power (-2) 8 true 7 = Ok 7.
 Proof. vm_compute. reflexivity. Qed.
-Example ex_power_bad_guess : calculate_largest_power 10 256 false 3000 = Ok 77.
+Example ex_power_bad_guess : calculate_largest_power 10 256 false 120 = Ok 77.
 Proof. vm_compute. reflexivity. Qed.
 Example ex_base : calculate_largest_base 3 8 true 6 = Ok (-5, 5).
 Proof. vm_compute. reflexivity. Qed.
